@@ -645,6 +645,8 @@ class Wrapc(util.WrapperMixin):
             cls - ast.ClassNode.
             node - ast.EnumNode.
         """
+        if not node.wrap.c:
+            return
         options = node.options
         ast = node.ast
         output = self.enum_impl
